@@ -275,21 +275,117 @@ Proof.
   all: try (destruct k; try discriminate H; reflexivity).
 Qed.
 
+(* ---------------------------------------------------------------- the failure reporters: how the test is left *)
+(* the source says what the model of the reporters assumes (regenerated: gen.Gen_C19.reporter_bodies, support_reporter_facts):
+   the C reporter is the C++ reporter but for the terminator it leaves the test with; both terminators run UT_CRASH() iff the flag
+   handed over by failTest is set; MockSupport sets activeReporter_ only in setActiveReporter (called by mock()), reads it in
+   crashOnFailure, createActualCall and failTest (after clear()), and clear() mentions no reporter at all *)
+Definition lookup_name (l : list (name * name)) (k : name) : name := match find (fun e => fst e =? k) l with Some e => snd e | None => "?" end.
+Definition reporters_ok : bool :=
+  let rb := lookup_name reporter_bodies in
+  (rb "C.failTest" =? rb "X.failTest") && (rb "C.exitCurrentTest" =? rb "X.exitCurrentTest")
+  && (rb "X.failTest" =? "if (!getTestToFail()->hasFailed()) getTestToFail()->failWith(failure, TERMINATOR(crashOnFailure_));")
+  && (rb "X.exitCurrentTest" =? "if (crashOnFailure_) UT_CRASH(); EXIT.exitCurrentTest();")
+  && (rb "C.terminator" =? "MockFailureReporterTestTerminatorForInCOnlyCode") && (rb "X.terminator" =? "MockFailureReporterTestTerminator")
+  && (rb "C.exit" =? "UtestShell::getCurrentTestTerminatorWithoutExceptions()") && (rb "X.exit" =? "UtestShell::getCurrentTestTerminator()")
+  && (rb "C.terminator.flag" =? "crashOnFailure_(crashOnFailure)") && (rb "X.terminator.flag" =? "crashOnFailure_(crashOnFailure)")
+  && (rb "C.reporter" =? "class MockFailureReporterForInCOnlyCode : public MockFailureReporter") && (rb "C.methods" =? "failTest")
+  && (rb "C.object" =? "static MockFailureReporterForInCOnlyCode failureReporterForC;") && (rb "X.crashOnFailure" =? "crashOnFailure_ = shouldCrash;")
+  && (if list_eq_dec strpair_eq_dec support_reporter_facts
+       [ ("mock", "MockSupport& mock_support = (mockName != """") ? *global_mock.getMockSupportScope(mockName) : global_mock; mock_support.setActiveReporter(failureReporterForThisCall); mock_support.setDefaultComparatorsAndCopiersRepository(); return mock_support;");
+         ("mock.default", "NULLPTR");
+         ("setActiveReporter", "activeReporter_ = (reporter) ? reporter : standardReporter_;");
+         ("crashOnFailure", "activeReporter_->crashOnFailure(shouldCrash);");
+         ("failTest", "clear(); activeReporter_->failTest(failure);");
+         ("createActualCall.reporter", "activeReporter_");
+         ("clear.reporters", "");
+         ("clone.reporters", "setMockFailureStandardReporter(standardReporter_)");
+         ("constructor.reporters", "activeReporter_(NULLPTR) standardReporter_(&defaultReporter_)") ]
+      then true else false).
+Lemma reporters_checked : reporters_ok = true.
+Proof. vm_compute. reflexivity. Qed.
+
+(* two layers mirror one another when they do the same up to the names of the two reporter objects *)
+Definition mirror (Lc Lx : rlayer) : Prop :=
+  (forall sc, l_given Lx sc = swap (l_given Lc sc)) /\ (forall r, l_clear Lx (swap r) = swap (l_clear Lc r))
+  /\ (forall r, l_call Lx (swap r) = swap (l_call Lc r)).
+Definition call_swap (c : callrec) : callrec := {| c_id := c_id c; c_scope := c_scope c; c_rep := swap (c_rep c) |}.
+Definition act_swap (e : scope * reporter) : scope * reporter := (fst e, swap (snd e)).
+Definition rs_swap (s : rstate) : rstate :=
+  {| rs_std := rs_c s; rs_c := rs_std s; rs_active := map act_swap (rs_active s); rs_calls := map call_swap (rs_calls s) |}.
+Lemma swap_swap r : swap (swap r) = r. Proof. destruct r; reflexivity. Qed.
+Lemma flag_swap s r : flag (rs_swap s) (swap r) = flag s r. Proof. destruct r; reflexivity. Qed.
+Lemma set_flag_swap s r b : set_flag (rs_swap s) (swap r) b = rs_swap (set_flag s r b). Proof. destruct r; reflexivity. Qed.
+Lemma filter_map_comm {A} (f : A -> bool) (g : A -> A) (l : list A) : (forall x, f (g x) = f x) -> filter f (map g l) = map g (filter f l).
+Proof. intros H. induction l as [|a l IH]; simpl; [reflexivity|]. rewrite H. destruct (f a); simpl; now rewrite IH. Qed.
+Lemma find_map_comm {A} (f : A -> bool) (g : A -> A) (l : list A) : (forall x, f (g x) = f x) -> find f (map g l) = option_map g (find f l).
+Proof. intros H. induction l as [|a l IH]; simpl; [reflexivity|]. rewrite H. destruct (f a); simpl; [reflexivity | exact IH]. Qed.
+Lemma rs_get_swap s sc : rs_get (rs_swap s) sc = option_map swap (rs_get s sc).
+Proof.
+  unfold rs_get. simpl. rewrite (find_map_comm _ act_swap) by reflexivity.
+  assert (forall o : option (scope * reporter), option_map snd (option_map act_swap o) = option_map swap (option_map snd o)) as E
+    by (intros [o|]; reflexivity).
+  rewrite E. reflexivity.
+Qed.
+Lemma rs_set_swap s sc r : rs_set (rs_swap s) sc (swap r) = rs_swap (rs_set s sc r).
+Proof. unfold rs_set, rs_swap. simpl. rewrite (filter_map_comm _ act_swap) by reflexivity. reflexivity. Qed.
+Lemma rs_clear_swap Lc Lx s sc : mirror Lc Lx -> rs_clear Lx (rs_swap s) sc = rs_swap (rs_clear Lc s sc).
+Proof.
+  intros [_ [Hc _]]. unfold rs_clear, rs_swap. simpl. f_equal.
+  - rewrite (filter_map_comm _ act_swap) by reflexivity. rewrite !map_map. apply map_ext. intros [a r]. unfold act_swap. simpl.
+    destruct (optbytes_eqb a sc); simpl; [now rewrite Hc | reflexivity].
+  - now rewrite (filter_map_comm _ call_swap) by reflexivity.
+Qed.
+Lemma rstep_swap Lc Lx s k x : mirror Lc Lx -> rstep Lx (rs_swap s) k x = rs_swap (rstep Lc s k x).
+Proof.
+  intros Hm. pose proof Hm as [Hg [_ Hk]]. destruct x as [sc0|h method args target|h method args| | | | | |]; try reflexivity; simpl.
+  - rewrite Hg. apply rs_set_swap.
+  - destruct h as [sc| | |]; try reflexivity. destruct target; try reflexivity. destruct (method =? "actualCall"); [|reflexivity].
+    rewrite rs_get_swap. destruct (rs_get s sc) as [r|]; [|reflexivity]. simpl. unfold rs_swap. simpl. f_equal.
+    rewrite (filter_map_comm _ call_swap) by reflexivity. f_equal. unfold call_swap. simpl. now rewrite Hk.
+  - destruct h as [sc| | |]; try reflexivity. destruct (method =? "crashOnFailure").
+    + rewrite rs_get_swap. destruct args as [|a0 ar]; [reflexivity|]. destruct a0; try reflexivity. destruct ar; [|reflexivity].
+      destruct (rs_get s sc) as [r|]; [|reflexivity]. simpl. apply set_flag_swap.
+    + destruct (method =? "clear"); [now apply rs_clear_swap | reflexivity].
+Qed.
+Lemma armed_swap s r : armed (rs_swap s) (option_map swap r) = armed s r.
+Proof. destruct r as [r|]; [|reflexivity]. simpl. now rewrite flag_swap. Qed.
+Lemma crash_on_swap Lc Lx s s' x b : mirror Lc Lx -> crash_on Lx (rs_swap s) (rs_swap s') x b = crash_on Lc s s' x b.
+Proof.
+  intros Hm. destruct b as [j| |]; simpl; [| |reflexivity].
+  - rewrite <- map_app, (find_map_comm _ call_swap) by reflexivity.
+    rewrite <- (armed_swap s'). f_equal. destruct (find _ (rs_calls s' ++ rs_calls s)); reflexivity.
+  - destruct (receiver x) as [sc|]; [|reflexivity]. rewrite (rs_clear_swap Lc Lx) by exact Hm. rewrite rs_get_swap. apply armed_swap.
+Qed.
+Lemma rstate0_swap : rs_swap rstate0 = rstate0. Proof. reflexivity. Qed.
+
 Section AnyMachine.
   Variable M : machine.
   (* C++ type checking of the forwarders: the result of an operation has the type its wrapper is applied to *)
   Hypothesis typed : forall st k x, fits (wrap_of x) (r_val (snd (mexec M st k x))) = true.
+  Variables Lc Lx : rlayer.
+  Hypothesis layers : mirror Lc Lx.
 
-  Lemma exec_same : forall tr st k vals, exec M observe_c st k tr vals = exec M (fun _ => observe_x) st k tr vals.
+  Lemma exec_same : forall tr st rs k vals, exec M Lc observe_c st rs k tr vals = exec M Lx (fun _ => observe_x) st (rs_swap rs) k tr vals.
   Proof.
-    induction tr as [|x r IH]; intros st k vals; simpl; [reflexivity|].
+    induction tr as [|x r IH]; intros st rs k vals; simpl; [reflexivity|].
     pose proof (typed st k x) as T. destruct (mexec M st k x) as [st' res]. simpl in T.
-    destruct (r_fail res); [reflexivity|]. rewrite (observe_same _ _ T). apply IH.
+    rewrite (rstep_swap Lc Lx) by exact layers.
+    destruct (r_fail res); [now rewrite (crash_on_swap Lc Lx) by exact layers|]. rewrite (observe_same _ _ T). apply IH.
   Qed.
 
-  Lemma halves_identical : forall ops, o_c (run_with M ops) = o_x (run_with M ops).
-  Proof. intros ops. unfold run_with. simpl. rewrite equiv_trace. apply exec_same. Qed.
+  Lemma halves_identical_layers : forall ops, o_c (run_layers Lc Lx M ops) = o_x (run_layers Lc Lx M ops).
+  Proof. intros ops. unfold run_layers. simpl. rewrite equiv_trace. exact (exec_same _ _ rstate0 _ _). Qed.
 End AnyMachine.
+
+(* the layers of the real code: through C every support is selected with failureReporterForC, through C++ with the standard reporter *)
+Lemma c_given : forall sc, l_given c_layer sc = RepC.
+Proof. intros [sc|]; vm_compute; reflexivity. Qed.
+Lemma layers_mirror : mirror c_layer x_layer.
+Proof. split; [|split]; [intros sc; now rewrite c_given | reflexivity | reflexivity]. Qed.
+Lemma halves_identical M (T : forall st k x, fits (wrap_of x) (r_val (snd (mexec M st k x))) = true) :
+  forall ops, o_c (run_with M ops) = o_x (run_with M ops).
+Proof. exact (halves_identical_layers M T c_layer x_layer layers_mirror). Qed.
 
 Lemma optbytes_eqb_refl a : optbytes_eqb a a = true.
 Proof. destruct a; simpl; [apply bytes_eqb_refl | reflexivity]. Qed.
@@ -305,6 +401,7 @@ Lemma half_eqb_refl h : half_eqb h h = true.
 Proof.
   unfold half_eqb. rewrite !andb_true_iff. repeat split.
   - destruct (h_fail h) as [[i s]|]; [|reflexivity]. now rewrite N.eqb_refl, bytes_eqb_refl.
+  - apply N.eqb_refl.
   - apply list_eqb_refl. intros x. now rewrite N.eqb_refl, canon_eqb_refl.
   - apply list_eqb_refl. intros x. now rewrite N.eqb_refl, bytes_eqb_refl.
 Qed.
@@ -313,11 +410,138 @@ Lemma equiv_obs : forall (M : machine), (forall st k x, fits (wrap_of x) (r_val 
   forall ops, spec ops (run_with M ops) = true.
 Proof. intros M T ops. unfold spec. rewrite (halves_identical M T ops). apply half_eqb_refl. Qed.
 
+Lemma equiv_obs_layers : forall Lc Lx, mirror Lc Lx -> forall (M : machine), (forall st k x, fits (wrap_of x) (r_val (snd (mexec M st k x))) = true) ->
+  forall ops, spec ops (run_layers Lc Lx M ops) = true.
+Proof. intros Lc Lx H M T ops. unfold spec. rewrite (halves_identical_layers M T Lc Lx H ops). apply half_eqb_refl. Qed.
+
 Lemma machine0_typed : forall st k x, fits (wrap_of x) (r_val (snd (mexec machine0 st k x))) = true.
 Proof. intros st k x. simpl. destruct (wrap_of x); reflexivity. Qed.
 
 Lemma run_meets_spec : forall s, valid s = true -> spec s (run s) = true.
 Proof. intros s _. exact (equiv_obs machine0 machine0_typed s). Qed.
+
+(* ---------------------------------------------------------------- the crash hook, interface by interface *)
+Lemma crash_equiv : forall (M : machine), (forall st k x, fits (wrap_of x) (r_val (snd (mexec M st k x))) = true) -> forall ops,
+  h_fail (o_c (run_with M ops)) = h_fail (o_x (run_with M ops)) /\ h_crash (o_c (run_with M ops)) = h_crash (o_x (run_with M ops)).
+Proof. intros M T ops. now rewrite (halves_identical M T ops). Qed.
+
+(* a layer keeps reporter G: every support is selected with G, clear() and createActualCall pass on what they find *)
+Definition keeps (G : reporter) (L : rlayer) : Prop :=
+  (forall sc, l_given L sc = G) /\ (forall r, l_clear L r = r) /\ (forall r, l_call L r = r).
+Lemma c_keeps : keeps RepC c_layer.
+Proof. split; [exact c_given | split; reflexivity]. Qed.
+Lemma x_keeps : keeps RepStd x_layer.
+Proof. split; [|split]; reflexivity. Qed.
+(* every mock support that exists and every actual call that exists holds reporter G *)
+Definition uniform (G : reporter) (s : rstate) : Prop :=
+  (forall e, In e (rs_active s) -> snd e = G) /\ (forall c, In c (rs_calls s) -> c_rep c = G).
+Lemma uniform0 G : uniform G rstate0.
+Proof. split; intros ? []. Qed.
+Lemma rs_get_in s sc r : rs_get s sc = Some r -> exists e, In e (rs_active s) /\ snd e = r.
+Proof.
+  unfold rs_get. intros E. match type of E with context [find ?f ?l] => destruct (find f l) as [e|] eqn:F end; [|discriminate E].
+  apply find_some in F. injection E as <-. exists e. tauto.
+Qed.
+Lemma rs_clear_uniform G L s sc : keeps G L -> uniform G s -> uniform G (rs_clear L s sc).
+Proof.
+  intros [_ [Hc _]] [Ha Hk]. split; simpl.
+  - intros e He. apply in_map_iff in He. destruct He as [e0 [<- Hin]]. apply filter_In in Hin. destruct Hin as [Hin _].
+    destruct (optbytes_eqb (fst e0) sc); simpl; [rewrite Hc|]; now apply Ha.
+  - intros c Hin. apply filter_In in Hin. now apply Hk.
+Qed.
+Lemma rstep_uniform G L s k x : keeps G L -> uniform G s -> uniform G (rstep L s k x).
+Proof.
+  intros HL Hu. pose proof HL as [Hg [_ Hcall]]. pose proof Hu as [Ha Hk].
+  destruct x as [sc0|h method args target|h method args| | | | | |]; try exact Hu; simpl.
+  - split; simpl; [|exact Hk]. intros e [<-|Hin]; [apply Hg|]. apply filter_In in Hin. now apply Ha.
+  - destruct h as [sc| | |]; try exact Hu. destruct target; try exact Hu. destruct (method =? "actualCall"); [|exact Hu].
+    destruct (rs_get s sc) as [r|] eqn:E; [|exact Hu]. split; simpl; [exact Ha|].
+    intros c [<-|Hin]; [|apply filter_In in Hin; now apply Hk]. simpl. rewrite Hcall.
+    destruct (rs_get_in _ _ _ E) as [e [Hin <-]]. now apply Ha.
+  - destruct h as [sc| | |]; try exact Hu. destruct (method =? "crashOnFailure").
+    + destruct args as [|a0 ar]; [exact Hu|]. destruct a0; try exact Hu. destruct ar; [|exact Hu].
+      destruct (rs_get s sc) as [r|]; [|exact Hu]. destruct r; exact Hu.
+    + destruct (method =? "clear"); [now apply rs_clear_uniform | exact Hu].
+Qed.
+Fixpoint rs_run (L : rlayer) (s : rstate) (k : nat) (tr : list xop) : rstate :=
+  match tr with [] => s | x :: r => rs_run L (rstep L s k x) (S k) r end.
+Lemma rs_run_uniform G L : keeps G L -> forall tr s k, uniform G s -> uniform G (rs_run L s k tr).
+Proof. intros HL. induction tr as [|x r IH]; intros s k Hu; simpl; [exact Hu|]. apply IH. now apply rstep_uniform. Qed.
+(* C19_reporter_uniform: whatever a scenario does (select, crashOnFailure, calls, clear in any order, any scopes), through C every
+   support and every call reports through failureReporterForC, through C++ through the standard reporter *)
+Lemma reporter_uniform : forall ops k,
+  uniform RepC (rs_run c_layer rstate0 k (c_trace ops)) /\ uniform RepStd (rs_run x_layer rstate0 k (x_trace ops)).
+Proof. intros ops k. split; [apply (rs_run_uniform RepC _ c_keeps) | apply (rs_run_uniform RepStd _ x_keeps)]; apply uniform0. Qed.
+
+Lemma optbytes_eqb_global a b : optbytes_eqb a b = true -> is_global a = is_global b.
+Proof. destruct a, b; simpl; intros H; try reflexivity; discriminate H. Qed.
+Lemma rs_get_clear L s sc : rs_get (rs_clear L s sc) sc = option_map (l_clear L) (rs_get s sc).
+Proof.
+  unfold rs_get, rs_clear. simpl. induction (rs_active s) as [|e l IH]; simpl; [reflexivity|].
+  destruct (optbytes_eqb (fst e) sc) eqn:E.
+  - rewrite (optbytes_eqb_global _ _ E). destruct (is_global sc); simpl; rewrite E; simpl; rewrite E; reflexivity.
+  - destruct (negb (is_global sc) || is_global (fst e)); simpl; [rewrite E; simpl; rewrite E|]; exact IH.
+Qed.
+Lemma flag_clear L s sc r : flag (rs_clear L s sc) r = flag s r.
+Proof. destruct r; reflexivity. Qed.
+(* C19_crash_iff_flag: under a layer that keeps G, when an operation fails the crash hook runs at most once, only if G's flag is set,
+   and then for every failure raised by a mock support that exists or by an actual call that exists (or that this operation deletes) *)
+Lemma crash_iff_flag : forall G L, keeps G L -> forall s s' x, uniform G s -> uniform G s' ->
+  (forall b, crash_on L s s' x b = 0%N \/ (crash_on L s s' x b = 1%N /\ flag s' G = true))
+  /\ (flag s' G = true -> forall sc, receiver x = Some sc -> rs_get s' sc <> None -> crash_on L s s' x BySupport = 1%N)
+  /\ (flag s' G = true -> forall c, In c (rs_calls s' ++ rs_calls s) -> crash_on L s s' x (ByCall (c_id c)) = 1%N).
+Proof.
+  intros G L HL s s' x Hs Hs'. pose proof HL as [_ [Hclr _]].
+  assert (forall c, In c (rs_calls s' ++ rs_calls s) -> c_rep c = G) as Hcalls.
+  { intros c Hin. apply in_app_or in Hin. destruct Hin; [now apply Hs' | now apply Hs]. }
+  assert (forall sc r, rs_get s' sc = Some r -> r = G) as Hact.
+  { intros sc r E. destruct (rs_get_in _ _ _ E) as [e [Hin <-]]. now apply Hs'. }
+  split; [|split].
+  - intros [j| |]; simpl; [| |now left].
+    + destruct (find _ (rs_calls s' ++ rs_calls s)) as [c|] eqn:F; simpl; [|now left]. apply find_some in F. rewrite (Hcalls c) by tauto.
+      destruct (flag s' G); [right; split; reflexivity | now left].
+    + destruct (receiver x) as [sc|]; [|now left]. rewrite rs_get_clear. destruct (rs_get s' sc) as [r|] eqn:E; simpl; [|now left].
+      rewrite Hclr, flag_clear, (Hact sc r E). destruct (flag s' G); [right; split; reflexivity | now left].
+  - intros Hf sc Hr Hex. simpl. rewrite Hr, rs_get_clear. destruct (rs_get s' sc) as [r|] eqn:E; [|contradiction]. simpl.
+    now rewrite Hclr, flag_clear, (Hact sc r E), Hf.
+  - intros Hf c Hin. simpl. destruct (find _ (rs_calls s' ++ rs_calls s)) as [c'|] eqn:F; simpl.
+    + apply find_some in F. rewrite (Hcalls c') by tauto. now rewrite Hf.
+    + exfalso. apply (find_none _ _ F) in Hin. now rewrite Nat.eqb_refl in Hin.
+Qed.
+
+(* ---------------------------------------------------------------- changed code is another layer: three ways to lose the C reporter *)
+(* a machine whose op number k0 fails (empty text), raised by `b`; nothing else happens *)
+Definition machine_fail (k0 : nat) (b : raiser) : machine :=
+  {| mst := unit; minit := tt;
+     mexec := fun st k _ => (st, {| r_fail := if Nat.eqb k k0 then Some [] else None; r_by := b; r_val := RNone |}); mouts := fun _ => [] |}.
+Lemma machine_fail_typed k0 b : forall st k x, fits (wrap_of x) (r_val (snd (mexec (machine_fail k0 b) st k x))) = true.
+Proof. intros st k x. simpl. destruct (wrap_of x); reflexivity. Qed.
+Definition layer_equiv_stmt (Lc : rlayer) : Prop :=
+  forall M, (forall st k x, fits (wrap_of x) (r_val (snd (mexec M st k x))) = true) -> forall ops, spec ops (run_layers Lc x_layer M ops) = true.
+(* MockSupport::clear() puts the standard reporter back (activeReporter_ = standardReporter_), and failTest clears before it reports *)
+Definition clear_resets_layer : rlayer := {| l_given := l_given c_layer; l_clear := fun _ => RepStd; l_call := fun r => r |}.
+(* mock_scope_c passes no reporter: named scopes report through the standard reporter *)
+Definition scope_null_layer : rlayer := {| l_given := fun sc => if is_global sc then RepC else RepStd; l_clear := fun r => r; l_call := fun r => r |}.
+(* createActualCall hands the standard reporter to the new call *)
+Definition call_standard_layer : rlayer := {| l_given := l_given c_layer; l_clear := fun r => r; l_call := fun _ => RepStd |}.
+Definition crash_on_check : list op :=      (* crashOnFailure(1); expectOneCall("f"); checkExpectations() *)
+  [ OSelect None; OCall TblS "crashOnFailure" [AZ 1]; OCall TblS "expectOneCall" [AB (Some [102%N])]; OCall TblS "checkExpectations" [] ].
+Definition crash_after_clear : list op :=   (* crashOnFailure(1); clear(); actualCall("g") -- the call is created after the clear, no new selection *)
+  [ OSelect None; OCall TblS "crashOnFailure" [AZ 1]; OCall TblS "clear" []; OCall TblS "actualCall" [AB (Some [103%N])] ].
+Definition crash_in_scope : list op :=      (* mock_c()->crashOnFailure(1); mock_scope_c("s")->actualCall("g") *)
+  [ OSelect None; OCall TblS "crashOnFailure" [AZ 1]; OSelect (Some [115%N]); OCall TblS "actualCall" [AB (Some [103%N])] ].
+Definition crash_on_call : list op :=       (* crashOnFailure(1); actualCall("g") *)
+  [ OSelect None; OCall TblS "crashOnFailure" [AZ 1]; OCall TblS "actualCall" [AB (Some [103%N])] ].
+Lemma clear_resets_refuted : ~ layer_equiv_stmt clear_resets_layer.
+Proof. intros H. specialize (H (machine_fail 3 BySupport) (machine_fail_typed 3 BySupport) crash_on_check). vm_compute in H. discriminate H. Qed.
+Lemma clear_resets_refuted_2 : ~ (forall ops, spec ops (run_layers clear_resets_layer x_layer (machine_fail 3 (ByCall 3)) ops) = true).
+Proof. intros H. specialize (H crash_after_clear). vm_compute in H. discriminate H. Qed.
+Lemma scope_null_refuted : ~ layer_equiv_stmt scope_null_layer.
+Proof. intros H. specialize (H (machine_fail 3 (ByCall 3)) (machine_fail_typed 3 (ByCall 3)) crash_in_scope). vm_compute in H. discriminate H. Qed.
+Lemma call_standard_refuted : ~ layer_equiv_stmt call_standard_layer.
+Proof. intros H. specialize (H (machine_fail 2 (ByCall 2)) (machine_fail_typed 2 (ByCall 2)) crash_on_call). vm_compute in H. discriminate H. Qed.
+Lemma faithful_layer_equiv : layer_equiv_stmt c_layer.
+Proof. intros M T ops. exact (equiv_obs_layers c_layer x_layer layers_mirror M T ops). Qed.
 
 (* ---------------------------------------------------------------- the code before the repair (fix: b5ec8af)
    Both tables shared one set of reader functions: the support table's readers went through the static `actualCall`
@@ -387,7 +611,7 @@ Proof. vm_compute. repeat split. Qed.
 (* a machine that returns values: the observation of a typed machine is non-empty and identical on both sides *)
 Definition machine1 : machine :=
   {| mst := unit; minit := tt;
-     mexec := fun st _ x => (st, {| r_fail := None;
+     mexec := fun st _ x => (st, {| r_fail := None; r_by := ByAssert;
                                     r_val := match wrap_of x with WBool01 => RBool true | WFunCast => RPtr PFunc 12288 | WValueC => RValue (MInt TLLong (-5))
                                                                 | WNone => match x with XRet _ _ _ _ | XOrDefault _ _ _ _ _ => RInt TULong 18446744073709551615 | _ => RNone end end |});
      mouts := fun _ => [] |}.
@@ -396,3 +620,30 @@ Proof. intros st k x. simpl. destruct (wrap_of x) eqn:E; try reflexivity. destru
 Example ex_machine1 : h_vals (o_c (run_with machine1 ex_scenario)) =
   [ {| v_op := 7; v_canon := CI TULong 18446744073709551615 |}; {| v_op := 8; v_canon := CI TLLong (-5) |} ].
 Proof. vm_compute. reflexivity. Qed.
+
+(* the crash hook: non-vacuous on both sides, lost by the changed layers exactly where the theorems say *)
+Example ex_crash_check : h_crash (o_c (run_with (machine_fail 3 BySupport) crash_on_check)) = 1%N
+                         /\ h_crash (o_x (run_with (machine_fail 3 BySupport) crash_on_check)) = 1%N
+                         /\ h_fail (o_c (run_with (machine_fail 3 BySupport) crash_on_check)) = Some (3%N, [])
+                         /\ h_crash (o_c (run_layers clear_resets_layer x_layer (machine_fail 3 BySupport) crash_on_check)) = 0%N.
+Proof. vm_compute. repeat split. Qed.
+Example ex_crash_other : h_crash (o_c (run_with (machine_fail 3 (ByCall 3)) crash_in_scope)) = 1%N
+                         /\ h_crash (o_c (run_layers scope_null_layer x_layer (machine_fail 3 (ByCall 3)) crash_in_scope)) = 0%N
+                         /\ h_crash (o_c (run_with (machine_fail 2 (ByCall 2)) crash_on_call)) = 1%N
+                         /\ h_crash (o_c (run_layers call_standard_layer x_layer (machine_fail 2 (ByCall 2)) crash_on_call)) = 0%N
+                         /\ h_crash (o_c (run_with (machine_fail 3 ByAssert) crash_on_check)) = 0%N
+                         /\ h_crash (o_c (run_with (machine_fail 3 BySupport) (OSelect None :: OCall TblS "crashOnFailure" [AZ 0] :: tl (tl crash_on_check)))) = 0%N.
+Proof. vm_compute. repeat split. Qed.
+(* crashOnFailure is one flag per interface: set through a scope, it holds for a failure the global support raises after a clear *)
+Definition ex_crash_scn : list op :=
+  [ OSelect (Some [115%N]); OCall TblS "crashOnFailure" [AZ 4294967295]; OSelect None; OCall TblS "clear" [];
+    OCall TblS "expectOneCall" [AB (Some [102%N])]; OCall TblS "checkExpectations" [] ].
+Example ex_crash_scope_clear : valid ex_crash_scn = true
+  /\ h_crash (o_c (run_with (machine_fail 5 BySupport) ex_crash_scn)) = 1%N /\ h_crash (o_x (run_with (machine_fail 5 BySupport) ex_crash_scn)) = 1%N
+  /\ rs_run c_layer rstate0 0 (c_trace ex_crash_scn) = {| rs_std := false; rs_c := true; rs_active := [(None, RepC)]; rs_calls := [] |}
+  /\ rs_run x_layer rstate0 0 (x_trace ex_crash_scn) = {| rs_std := true; rs_c := false; rs_active := [(None, RepStd)]; rs_calls := [] |}.
+Proof. vm_compute. repeat split. Qed.
+Example ex_mirror_hyp : mirror c_layer x_layer /\ ~ mirror clear_resets_layer x_layer.
+Proof. split; [exact layers_mirror|]. intros [_ [H _]]. specialize (H RepC). vm_compute in H. discriminate H. Qed.
+Example ex_keeps_hyp : keeps RepC c_layer /\ uniform RepC {| rs_std := false; rs_c := true; rs_active := [(None, RepC)]; rs_calls := [] |}.
+Proof. split; [exact c_keeps|]. split; simpl; [intros e [<-|[]]; reflexivity | intros c []]. Qed.
